@@ -2,6 +2,7 @@ package c07
 
 import (
 	"fmt"
+	"sort"
 
 	"golang.org/x/text/language"
 	"seehuhn.de/go/sfnt/opentype/gtab"
@@ -66,11 +67,12 @@ func genGdef(r *vlib.Rand) *Gdef {
 }
 
 type tgen struct {
-	r     *vlib.Rand
-	nLk   int  // number of lookups in the list (targets of nested actions)
-	wild  bool // out-of-range indices the reader can deliver
-	bad   bool // shapes the reader cannot deliver (coverage index beyond the table)
-	alpha []int
+	r       *vlib.Rand
+	nLk     int  // number of lookups in the list (targets of nested actions)
+	wild    bool // out-of-range indices the reader can deliver
+	bad     bool // shapes the reader cannot deliver (coverage index beyond the table)
+	sortCov bool // coverage indices in glyph order (needed by the encoder)
+	alpha   []int
 }
 
 func (t *tgen) gid() int { return vlib.Pick(t.r, t.alpha) }
@@ -91,6 +93,9 @@ func (t *tgen) gidsDistinct(n int) []int {
 
 func (t *tgen) cov(n int) []KV {
 	gs := t.gidsDistinct(n)
+	if t.sortCov {
+		sort.Ints(gs)
+	}
 	out := make([]KV, len(gs))
 	for i, g := range gs {
 		out[i] = KV{g, i}
@@ -469,12 +474,26 @@ func emit(run *vlib.Run, c *Case, extra ...string) {
 		labels = append(labels, "nested:contextual")
 	}
 	idx := run.Add(line, v.Impl, v.NonTri, labels...)
+	// the harness' description of the table shape against Shape.v of the model
+	run.Add(shapeLine(c), shapeImpl(c), false, "shape-predicates")
 	if v.Fail != "" {
 		if !shape && v.Sig == "c07-panic" {
 			return // outside the quantifier: the reader cannot deliver this shape
 		}
 		run.Fail(idx, line, v.Fail, v.Sig)
 	}
+}
+
+func shapeLine(c *Case) string {
+	full := c.Line()
+	// the first top-level item of the case line is the lookup list
+	items, _ := vlib.Parse(full)
+	return vlib.Line(vlib.Atom("shape"), items[0])
+}
+
+func shapeImpl(c *Case) string {
+	ll, _, _ := c.Gtab()
+	return vlib.Str(vlib.L(vlib.Bool(readerShape(c)), vlib.Bool(!unimplemented(ll)), vlib.Bool(!hasContext(c))))
 }
 
 func (t *tgen) history(maxLen int) [][]G {
@@ -712,7 +731,7 @@ func directed() []*Case {
 		Lookups: []int{0}, Hist: [][]G{one(1, 3, 3), one(2), one(1, 3, 3, 2)}})
 	// self-referential rule
 	out = append(out, &Case{
-		LL: []*Lookup{{Subs: []*Sub{{Kind: "sc1", Cov: []KV{{1, 0}}, Rules: [][]Rule{{{Acts: []Act{{0, 0}, {0, 1}}}}}}}}, inc},
+		LL:      []*Lookup{{Subs: []*Sub{{Kind: "sc1", Cov: []KV{{1, 0}}, Rules: [][]Rule{{{Acts: []Act{{0, 0}, {0, 1}}}}}}}}, inc},
 		Lookups: []int{0}, Hist: [][]G{one(1, 1, 1), one(2, 1), one(1)}})
 	// self-referential growth: every nested action doubles a glyph
 	out = append(out, &Case{
@@ -796,6 +815,10 @@ func encodeInfo(c *Case) (data []byte, tp string, ok bool) {
 			ok = false
 		}
 	}()
+	return encodeInfoNoRecover(c)
+}
+
+func encodeInfoNoRecover(c *Case) (data []byte, tp string, ok bool) {
 	ll, _, _ := c.Gtab()
 	tp = "gsub"
 	for _, l := range c.LL {
@@ -817,7 +840,7 @@ func genRead(run *vlib.Run, r *vlib.Rand, tier string) {
 	n := vlib.Count(tier, 250, 6000)
 	valid, accepted, rejected, modelled := 0, 0, 0, 0
 	for i := 0; i < n; i++ {
-		t := &tgen{r: r, alpha: []int{1, 2, 3, 10, 11, 20}, wild: r.Chance(1, 2)}
+		t := &tgen{r: r, alpha: []int{1, 2, 3, 10, 11, 20}, wild: r.Chance(1, 2), sortCov: true}
 		t.nLk = r.Range(1, 4)
 		kinds := gsubKinds
 		if r.Chance(1, 3) {
